@@ -1,7 +1,9 @@
 ----------------------------- MODULE ServerTrace ----------------------------
 (* Validation of sessions of the real server (virtual socket around enip_srv_tcp) against Server.                    *)
 (* One NDJSON line per session: {"sc": scenario, "ev": [events], "final": memory after the session, "others": b}     *)
-(* events: {"a":"recv","n":k} {"a":"poll"} {"a":"eof"} {"a":"proc","i":j} {"a":"send","b":octets} {"a":"close"}        *)
+(* events: {"a":"recv","n":k} {"a":"poll"} {"a":"eof"} {"a":"proc","i":j} {"a":"send","b":octets,"conns":[serials]}     *)
+(*         {"a":"close"}  -- "conns": the connection serials the real Connection Manager holds for the peer at that point  *)
+(*         {"a":"conns-left","n":k} (always last: after the session the Connection Manager holds k connections of the peer)  *)
 (*         {"a":"exc"} (an exception left the session function after the close; the listener swallows it)            *)
 (* "others": a second connection made afterwards was served correctly (C02 / C08: the listener keeps working).       *)
 EXTENDS Server, Json, IOUtils, TLCExt
@@ -21,15 +23,18 @@ TStep == /\ l <= Len(Ev) /\ l' = l + 1 /\ UNCHANGED t
               [] e.a = "poll"  -> Poll
               [] e.a = "eof"   -> Eof
               [] e.a = "proc"  -> e.i = next /\ Proc(SC)
-              [] e.a = "send"  -> Send(SC, e.b)
+              [] e.a = "send"  -> Send(SC, e.b) /\ { c.serial : c \in conns' } = { e.conns[k] : k \in 1 .. Len(e.conns) }     \* the real Forward Open table
               [] e.a = "close" -> Close(SC)
               [] e.a = "exc"   -> closed /\ UNCHANGED svars
+              [] e.a = "conns-left" -> closed /\ Cardinality({ c.serial : c \in conns }) = e.n /\ UNCHANGED svars      \* the table after the session
               [] OTHER -> FALSE
 TSpec == TInit /\ [][TStep]_tvars
 
 WhyStuck == LET e == Ev[l] IN
    IF e.a = "proc" THEN (IF ~Complete(SC, next) THEN "acted-on-incomplete-frame" ELSE "unexpected-processing")
-   ELSE IF e.a = "send" THEN (IF pend = 0 THEN "reply-without-request" ELSE "reply-not-allowed")
+   ELSE IF e.a = "send" THEN (IF pend = 0 THEN "reply-without-request"
+                              ELSE IF ReplyOutcomes(SC, smem, SC.frames[pend], e.b) # {} THEN "connection-table-differs" ELSE "reply-not-allowed")
+   ELSE IF e.a = "conns-left" THEN "connection-table-after-session-differs"
    ELSE IF e.a = "close" THEN "close-with-unanswered-complete-request"
    ELSE e.a
 Verdict == (l <= Len(Ev) /\ ~ENABLED TStep) => PrintT(ToJson([tid |-> t, at |-> l, why |-> WhyStuck]))
